@@ -159,8 +159,10 @@ def stream_netcdf(c, N, tmp):
             times = sorted(set(times + [times[-1] + 17, times[-1] + 5000]))
             n = len(times)
         fd = rng.choice([0, 86400 * rng.randint(0, 6000), rng.randint(0, 10 ** 8)]) + 10 ** 8
+        ft = rng.choice([0, 0, 3600, -7200, times[len(times) // 2]])
         E = rng.choice([1, 1, 2, 3])
-        stations = rng.sample(["st1", "Loc_B", "x", "reservoir.long.name"], rng.randint(1, 3))
+        stations = rng.sample(rng.choice([["st1", "LoB", "x_1"], ["a", "b", "c"], ["reservoir.long.name", "reservoir.long.nam2"]]),
+                              rng.randint(1, 2))  # equal lengths: see probe C11-N1
         pars = rng.sample(["H", "Q_in", "v"], rng.randint(1, 2))
         vals = {(s, p, m): [rng.choice([NAN, rng.uniform(-1e6, 1e6), 0.0, rng.randint(-9, 9) / 8]) for _ in range(n)]
                 for s in stations for p in pars for m in range(E)}
@@ -168,7 +170,7 @@ def stream_netcdf(c, N, tmp):
 
         def real():
             e = nc.ExportDataset(tmp, "n%d" % i)
-            e.write_times(np.array(times, dtype=float), 0.0, dtm(fd))
+            e.write_times(np.array(times, dtype=float), float(ft), dtm(fd))
             e.write_station_data(_NoStations, stations)
             e.write_ensemble_data(E)
             e.create_variables(pars, E)
@@ -189,13 +191,13 @@ def stream_netcdf(c, N, tmp):
             os.remove(os.path.join(tmp, "n%d.nc" % i))
         except OSError:
             pass
-        case = {"stream": "netcdf", "times": times, "forecast_date": fd, "E": E, "stations": stations, "pars": pars,
+        case = {"stream": "netcdf", "times": times, "forecast_date": fd, "forecast_time": ft, "E": E, "stations": stations, "pars": pars,
                 "values": {"/".join(map(str, k)): v for k, v in written.items()}}
         cases.append((case, res, written))
-        lines.append({"op": "nc_times", "times": times, "ft": 0, "fd": fd})
+        lines.append({"op": "nc_times", "times": times, "ft": ft, "fd": fd})
         c.count(("nc", n, neg, E, len(stations), len(pars), len(written)))
         c.hit("netcdf/E=%d" % E)
-        c.hit("netcdf/" + ("negative times" if neg else "from t0"))
+        c.hit("netcdf/" + ("negative times" if neg else "from t0") + ("" if ft == 0 else ", forecast time != 0"))
         c.sample(case, limit=2)
     outs = c.model(lines)
     for k, (case, res, written) in enumerate(cases):
@@ -203,7 +205,7 @@ def stream_netcdf(c, N, tmp):
             c.fail("netcdf export/import raised " + res[1], case)
             continue
         ts, E, st, out = res[1]
-        exp_ts = [case["forecast_date"] + t for t in case["times"]]
+        exp_ts = [case["forecast_date"] + t - case["forecast_time"] for t in case["times"]]
         if ts != exp_ts:
             c.fail("netcdf round trip changes the time stamps", case, ts)
         if E != case["E"] or st != case["stations"]:
@@ -314,8 +316,8 @@ def stream_param(c, N, tmp):
                  "loc": rng.choice([None, g["loc"], 0, 1]), "model": rng.choice([None, g["model"], 0])}
             if o["op"] == "set":
                 o["a"] = gen_parg(rng)
-                old = [p["v"] for p in g["pars"] if p["k"] == o["p"]]
-                if old and old[0]["t"] == "dbl" and o["a"]["t"] == "bool":
+                old = [p["v"] for gg in conf for p in gg["pars"] if p["k"] == o["p"] and p["v"]["t"] == "dbl"]
+                if old and o["a"]["t"] == "bool":
                     o["a"] = {"t": "int", "v": 1}  # str(True) in a dblValue is unreadable later: not modelled
             ops.append(o)
         d = os.path.join(tmp, "pc%d" % i)
@@ -415,7 +417,8 @@ def stream_ids(c, N, tmp):
                                  "quals": rng.sample(range(4), rng.choice([0, 0, 1, 2, 3]))}})
         if n > 1 and rng.random() < 0.15:  # same external id up to the order of the qualifiers
             ents[-1]["ext"] = {**ents[0]["ext"], "quals": list(reversed(ents[0]["ext"]["quals"]))}
-        heads = [dict(e["ext"]) for e in ents]
+        ents = [{**e, "ext": {**e["ext"], "quals": list(e["ext"]["quals"])}} for e in ents]
+        heads = [{**e["ext"], "quals": list(e["ext"]["quals"])} for e in ents]
         for h in heads:
             rng.shuffle(h["quals"])
         heads.append({"loc": 1, "par": 2, "quals": [0, 3]})
@@ -538,30 +541,31 @@ def stream_rewrite(c, N, tmp, gen_store):
 
 
 # ---------------------------------------------------------------------------------------------
-# known findings: dedicated probes
+# corpus: the inputs of repaired findings, checked as ordinary cases
 
 
-def probes(c, tmp):
+def corpus(c, tmp):
     import rtctools.data.netcdf as nc
     import rtctools.data.pi as pi
     import rtctools.data.rtc as rtc
 
     ids = P.Ids(["a"], {"a": ("L", "P", [])})
-    d = os.path.join(tmp, "probe")
+    d = os.path.join(tmp, "corpus")
     os.makedirs(d)
     with open(os.path.join(d, "rtcDataConfig.xml"), "w") as fh:
         fh.write(ids.config_xml())
     dc = rtc.DataConfig(d)
     H = 3600
-    # F26: equidistant resize to a window starting more than one step after the old end
+    # F26 (fixed f5e4157): equidistant resize to a window starting more than one step after the old end
     st = {"dt": H, "start": 0, "stop": 4 * H, "times": [k * H for k in range(5)], "forecast": 0, "fcIndex": 0, "tz": None,
           "containsEns": False, "ensSize": 1, "slots": [[{"var": 0, "unit": "m", "vals": [xv(10.0 + k) for k in range(5)]}]]}
     ts = P.build_real(pi, dc, d, "ts", st, ids, False)
     ts.resize(dtm(7 * H), dtm(11 * H))
-    c.known_probe("F26", len(ts.get("a")) != 5,
-                  "pi.Timeseries.resize: stamps 0..4 h resized to the window 7..11 h gives %d values instead of 5"
-                  % len(ts.get("a")))
-    # F27: nonequidistant resize with a later start leaves `times` stale; write() mis-stamps the values
+    c.count(("corpus", "F26"))
+    if len(ts.get("a")) != 5 or not all(isnan(float(x)) for x in ts.get("a")):
+        c.fail("pi resize: stamps 0..4 h resized to the window 7..11 h must give 5 missing values",
+               {"corpus": "F26"}, list(map(float, ts.get("a"))))
+    # F39 (fixed c8258f8): nonequidistant resize with a later start, then write and read
     offs = [0, 1, 3, 4, 7, 8]
     st = {"dt": None, "start": 0, "stop": 8 * H, "times": [k * H for k in offs], "forecast": 0, "fcIndex": 0, "tz": None,
           "containsEns": False, "ensSize": 1, "slots": [[{"var": 0, "unit": "m", "vals": [xv(10.0 + k) for k in offs]}]]}
@@ -571,10 +575,11 @@ def probes(c, tmp):
     r.write()
     r2 = pi.Timeseries(dc, d, "ts", binary=False)
     got = list(map(float, r2.get("a")))
-    c.known_probe("F27", got != [13.0, 14.0, 17.0, 18.0] or [sec(t) for t in r2.times] != [3 * H, 4 * H, 7 * H, 8 * H],
-                  "nonequidistant pi resize(later start) -> write -> read: values %s at stamps %s h (expected 13,14,17,18 at 3,4,7,8 h)"
-                  % (got, [sec(t) // H for t in r2.times]))
-    # F28: netcdf write_times with forecast_time != 0 and no negative time
+    c.count(("corpus", "F39"))
+    if got != [13.0, 14.0, 17.0, 18.0] or [sec(t) for t in r2.times] != [3 * H, 4 * H, 7 * H, 8 * H]:
+        c.fail("nonequidistant pi resize(later start) -> write -> read loses / mis-stamps values",
+               {"corpus": "F39"}, {"values": got, "stamps_h": [sec(t) // H for t in r2.times]})
+    # F40 (fixed 2e78bfd): netcdf write_times with forecast_time != 0 and no negative time
     e = nc.ExportDataset(d, "x")
     e.write_times(np.array([0.0, 3600.0, 7200.0]), 3600.0, dtm(10 ** 8))
     e.write_station_data(_NoStations, ["s"])
@@ -582,7 +587,43 @@ def probes(c, tmp):
     e.create_variables(["v"], 1)
     e.close()
     got = [sec(t) - 10 ** 8 for t in nc.ImportDataset(d, "x").read_import_times()]
-    c.known_probe("F28", got != [-3600, 0, 3600],
-                  "netcdf write_times([0,3600,7200], forecast_time=3600, D) reads back D%+d.. instead of D-3600.. "
-                  "(with a negative time present the documented D + t - forecast_time is used)" % got[0])
+    c.count(("corpus", "F40"))
+    if got != [-3600, 0, 3600]:
+        c.fail("netcdf write_times([0,3600,7200], forecast_time=3600, D) must read back D-3600, D, D+3600",
+               {"corpus": "F40"}, got)
+    # F7 (fixed 658d814): forecast date 28 h after the start on a 7 h grid
+    f = {"tz": None, "bin": None, "recs": [{"hdr": {"var": 0, "member": None, "step": 25200, "start": 0, "stop": 5 * 25200,
+                                                  "forecast": 100800, "miss": xv(-999.0), "unit": "m"},
+                                          "evt": [k * 25200 for k in range(6)], "evs": [xv(float(k)) for k in range(6)]}]}
+    P.write_file(d, "f7", f, ids)
+    r = pi.Timeseries(dc, d, "f7", binary=False)
+    c.count(("corpus", "F7"))
+    if sec(r.forecast_datetime) != 100800 or r.forecast_index != 4:
+        c.fail("PI forecast date 28 h after the start (7 h step) must stay on the grid with index 4",
+               {"corpus": "F7"}, {"forecast": sec(r.forecast_datetime), "index": r.forecast_index})
+    shutil.rmtree(d, ignore_errors=True)
+
+
+def probes(c, tmp):
+    """dedicated probes of findings that are not (yet) repaired"""
+    import rtctools.data.netcdf as nc
+
+    d = os.path.join(tmp, "probe")
+    os.makedirs(d)
+    out = []
+    for st in (["x", "long_name"], ["st1", "Loc_B"]):
+        def real():
+            e = nc.ExportDataset(d, "x")
+            e.write_times(np.array([0.0, 3600.0]), 0.0, dtm(10 ** 8))
+            e.write_station_data(_NoStations, st)
+            e.write_ensemble_data(1)
+            e.create_variables(["v"], 1)
+            e.close()
+            return list(nc.ImportDataset(d, "x").read_station_data().station_ids)
+        r = call(real)
+        out.append((st, r))
+    bad = [(st, r) for st, r in out if r[0] == "raise" or r[1] != st]
+    c.known_probe("C11-N1", bool(bad),
+                  "netcdf ExportDataset.write_station_data with station ids of different lengths: %s"
+                  % "; ".join("%s -> %s" % (st, r[1]) for st, r in bad))
     shutil.rmtree(d, ignore_errors=True)
